@@ -9,5 +9,6 @@ CONSTANTS
   NoWait = FALSE
   MaxWait = 1
   Batch = 0
+  BigUncharged = FALSE
 INVARIANT RateBound
 CHECK_DEADLOCK FALSE
